@@ -196,19 +196,19 @@ Definition admissibleb (consts : list string) (m : list (string * string)) (a : 
 Definition default_order (ga : gaction) : list nat := seq 0 (List.length (ga_groups ga)).
 Definition default_uorder (ga : gaction) : list nat := seq 0 (List.length (ma_univ (ga_action ga))).
 
-Definition m_app (c : rcase) (d : mdomain) (a : maction) (q : rprobe) : obs bool :=
-  obs_of_result (do ga <- ground_action d a (q_args q);
-                 is_applicable d (r_eps c) (Some (r_objs c)) ga (q_state q)).
-Definition m_succ (c : rcase) (d : mdomain) (a : maction) (q : rprobe) : obs state :=
-  obs_of_result (do ga <- ground_action d a (q_args q);
+Definition m_app (c : rcase) (d : mdomain) (g : result gaction) (q : rprobe) : obs bool :=
+  obs_of_result (do ga <- g; is_applicable d (r_eps c) (Some (r_objs c)) ga (q_state q)).
+Definition m_succ (c : rcase) (d : mdomain) (g : result gaction) (q : rprobe) : obs state :=
+  obs_of_result (do ga <- g;
                  apply_op d (r_eps c) ga (Some (r_objs c)) false false (default_order ga) (default_uorder ga)
                           (q_state q)).
 
 Definition sig_eqb (a b : list (string * string)) : bool := list_eqb pair_eqb a b.
 
 Definition judge (c : rcase) : list verdict :=
-  let md := model_dom c in
-  let sd := spec_dom c in
+  let es := text_sexp (r_text c) in                                     (* the domain text is read once *)
+  let md := match es with Ok e => parse_domain (rnum c) e | Err k => Err k end in
+  let sd := match es with Ok e => read_domain (rnum c) e | Err _ => None end in
   let m := r_map c in
   let rho := rho_of m in
   let ma := match md with Ok d => match dget (d_actions d) (r_action c) with Some a => Some (d, a) | None => None end
@@ -216,11 +216,14 @@ Definition judge (c : rcase) : list verdict :=
   let sa := match sd with Some d => match find_action d (r_action c) with Some a => Some (d, a) | None => None end
                         | None => None end in
   let adm := match sa with Some (d, a) => admissibleb (map fst (sd_consts d)) m a | None => false end in
+  let mr := match ma with Some (d, a) => Some (d, change_signature m a) | None => None end in   (* renamed once *)
   (* signature *)
   let v_sig :=
     {| v_agree := match ma with
                   | Some (d, a) =>
-                      obs_eqb sig_eqb (Returned (ma_sig (change_signature m a))) (r_sig c) &&
+                      match mr with
+                      | Some (_, ra) => obs_eqb sig_eqb (Returned (ma_sig ra)) (r_sig c)
+                      | None => false end &&
                       (* every case the oracle judges lies inside the theorem: C18_rename's side condition holds *)
                       (negb adm || renaming_ok d a m)
                   | None => false end;
@@ -251,18 +254,19 @@ Definition judge (c : rcase) : list verdict :=
   (* probes *)
   let v_probes :=
     flat_map (fun q =>
+      let g := match mr with Some (d, ra) => ground_action d ra (q_args q) | None => Err EOther end in
       let consistent_probe :=
         match sa with
         | Some (d, a) => consistent (all_groups (r_eps c) (spec_tt d) (r_objs c) a (q_args q) (q_state q))
         | None => true end in
-      [ {| v_agree := match ma with
-                      | Some (d, a) => obs_eqb Bool.eqb (m_app c d (change_signature m a) q) (q_app1 q)
+      [ {| v_agree := match mr with
+                      | Some (d, _) => obs_eqb Bool.eqb (m_app c d g q) (q_app1 q)
                       | None => false end;
            v_ok := negb adm || obs_eqb Bool.eqb (q_app1 q) (q_app0 q);
            v_known := false |};
         {| v_agree := negb consistent_probe ||
-                      match ma with
-                      | Some (d, a) => obs_eqb state_equiv (m_succ c d (change_signature m a) q) (q_succ1 q)
+                      match mr with
+                      | Some (d, _) => obs_eqb state_equiv (m_succ c d g q) (q_succ1 q)
                       | None => false end;
            v_ok := negb adm || negb consistent_probe || obs_eqb state_equiv (q_succ1 q) (q_succ0 q);
            v_known := false |} ]) (r_probes c) in
@@ -282,7 +286,8 @@ Definition explain (c : rcase) :=
                                match r_print1 c with
                                | Returned t1 => match model_action_of_text c d t1 with Ok a1 => Some a1 | Err _ => None end
                                | Raised => None end,
-                               map (fun q => (m_app c d (change_signature m a) q, m_succ c d (change_signature m a) q))
+                               map (fun q => let g := ground_action d (change_signature m a) (q_args q) in
+                                             (m_app c d g q, m_succ c d g q))
                                    (r_probes c))
              | None => None end
    | Err _ => None end,
